@@ -276,9 +276,18 @@ def expr_text(n, depth=0, fn=None):
         return "%s%s" % (op, s) if not n.get("postfix") else "%s%s" % (s, op)
     if k == "BinaryOperator":
         return "(%s %s %s)" % (expr_text(n.get("lhs"), depth + 1, fn), n.get("op"), expr_text(n.get("rhs"), depth + 1, fn))
+    if k == "CXXDependentScopeMemberExpr":
+        b = n.get("base")
+        return "%s.%s" % (expr_text(b, depth + 1, fn), n.get("name", "?")) if b is not None else n.get("name", "?")
+    if k in ("UnresolvedLookupExpr", "UnresolvedMemberExpr"):
+        return n.get("name", "?")
     if k in ("CallExpr", "CXXMemberCallExpr", "CXXOperatorCallExpr"):
         c = n.get("callee") or {}
-        nm = c.get("name", "?")
+        nm = c.get("name") or ((n.get("fnexpr") or {}).get("name")) or "?"
+        if c.get("targs") and "/sbeppc/" in (c.get("file") or "") and k != "CXXOperatorCallExpr":
+            # explicit/deduced template arguments of sbeppc's own function templates are part of what is called
+            # (can_be_parsed_as<std::int8_t> vs <std::uint8_t>)
+            nm += "<%s>" % ",".join(str(a).replace("sbepp::sbeppc::", "") for a in c["targs"])
         args = [expr_text(a, depth + 1, fn) for a in n.get("args") or []]
         o = n.get("obj")
         if k == "CXXOperatorCallExpr":
